@@ -70,7 +70,7 @@ class Contracts:
                     raise Undecided("%s:%d: bad section header" % (fname, ln))
                 item, anchor = parts[0], parts[1:]
                 a0 = anchor[0]
-                if a0 in ("ret", "t8", "t8p", "t8o", "t10", "foriter", "external", "skip_body", "trait", "rename", "strip_mut", "t14", "nocanary", "effects", "effects_pass", "effects_sig", "crashpoints", "t20_calls"):
+                if a0 in ("ret", "t8", "t8p", "t8o", "t10", "foriter", "external", "skip_body", "trait", "rename", "strip_mut", "t14", "nocanary", "effects", "effects_pass", "effects_sig", "crashpoints", "t20_calls", "replies"):
                     self.flags.setdefault(item, {}).setdefault(a0, []).append(anchor[1:])
                     cur = None
                     continue
@@ -239,7 +239,8 @@ def sel_item(items, sel, trait=None):
         return re.sub(r"<[^:]*>(?=::|$)", "", p)
     cands = [it for it in items if (it["path"] == sel or norm(it["path"]) == sel) and it["kind"] in ("fn", "impl_fn", "struct", "enum", "const", "static", "type")]
     if trait is not None:
-        cands = [it for it in cands if (it.get("trait") or "") == trait]
+        nows = lambda s_: re.sub(r"\s+", "", s_ or "")     # `Trait<A, B>` may be written without the blank (section headers are blank-separated)
+        cands = [it for it in cands if nows(it.get("trait")) == nows(trait)]
     elif len(cands) > 1:
         c2 = [it for it in cands if not it.get("trait")]
         if len(c2) == 1:
@@ -550,7 +551,8 @@ def emit_fn(data, it, ckey, C, tlog, anchors_used, canary=False):
         if not f["inputs"]:
             raise Undecided("T17: %s has no parameters" % it["path"])
         ed.insert(f["inputs"][-1]["end"], ", Tracked(vx_log): Tracked<&mut VxLog>", order=-2)
-        nw = npass = 0
+        nw = npass = nrep = 0
+        reply_names = set(x for fl in C.flag(ckey, "replies") for x in fl)
         for c in f.get("calls", []):
             if in_foreign_closure(c):
                 if c["name"] in eff_names or c["name"] in pass_names:
@@ -567,6 +569,15 @@ def emit_fn(data, it, ckey, C, tlog, anchors_used, canary=False):
                 ed.insert(a["start"], "vx_note(&%s, " % re.sub(r"\s+", "", recv), order=-2)
                 ed.insert(a["end"], ", Tracked(vx_log))", order=-2)
                 nw += 1
+                if c["name"] in reply_names:
+                    # reply log: `X.send(M).await` -> `vx_reply(X.send(M).await, log)` (identity on the awaited value; the value is
+                    # appended to the ghost reply sequence, so that a postcondition can say what the function made of the answer)
+                    aw = [w_ for w_ in f.get("await_spans", []) if w_["base"]["start"] == c["start"] and w_["base"]["end"] == c["end"]]
+                    if len(aw) != 1:
+                        raise Undecided("T17: the `%s` call of %s whose reply is to be logged is not awaited directly" % (c["name"], it["path"]))
+                    ed.insert(aw[0]["start"], "vx_reply(", order=-4)
+                    ed.insert(aw[0]["end"], ", Tracked(vx_log))", order=-4)
+                    nrep += 1
             elif c["name"] in pass_names:
                 if not c["args"]:
                     if data[c["end"] - 1:c["end"]] != b")":
@@ -575,7 +586,7 @@ def emit_fn(data, it, ckey, C, tlog, anchors_used, canary=False):
                 else:
                     ed.insert(c["args"][-1]["end"], ", Tracked(vx_log)", order=-2)
                 npass += 1
-        tlog.append({"t": "T17", "item": it["path"], "wrapped_calls": nw, "passed_on": npass,
+        tlog.append({"t": "T17", "item": it["path"], "wrapped_calls": nw, "passed_on": npass, "replies_logged": nrep,
                      "note": "ghost effect log threaded through the signature; message arguments of %s wrapped in vx_note(&RECEIVER, ARG, log) (run-time identity on ARG; the receiver must be a plain field path / local)" % sorted(eff_names)})
     # T19: crash points.  After EVERY statement that holds a call of one of the listed file-mutating methods (`write_all`, `set_len`)
     # the ghost assertion given in the `crash_inv` section is inserted: the invariant that must hold of the disk image at every
@@ -1016,7 +1027,7 @@ def assemble_unit(unit_dir, repo=None, canary=False):
                     # associated types of the trait impl (`type Result = ..;`) are substituted into the lifted signature
                     assoc = {}
                     for ai in items:
-                        if ai["kind"] == "impl_type" and ai.get("self_ty") == it["self_ty"] and (ai.get("trait") or "") == trait:
+                        if ai["kind"] == "impl_type" and ai.get("self_ty") == it["self_ty"] and re.sub(r"\s+", "", ai.get("trait") or "") == re.sub(r"\s+", "", trait):
                             mm = re.match(rb"\s*type\s+(\w+)\s*=\s*(.*?);\s*$", data[ai["start"]:ai["end"]], re.S)
                             if mm:
                                 assoc[mm.group(1)] = mm.group(2)
